@@ -340,7 +340,7 @@ class Guards:
         cbi, ct, key = hit
         cb = self.ev.facts.bodies[key]
         args = [self.ev.operand(self.env, a, (cbi, None)) for a in ct["args"]]
-        cenv = self.ev.inline_env(cb, {i + 1: x for i, x in enumerate(args)}, self.env.depth + 1)
+        cenv = self.ev.inline_env(cb, {i + 1: x for i, x in enumerate(args)}, self.env.depth + 1, self.env.path + ((body.key, cbi),))
         cb = cenv.body
         cg = Guards(self.ev, cb, cenv)
         sites = [bi for bi, si, s in cb.stmts() if s["k"] == "assign" and s["place"]["l"] == 0 and not s["place"]["proj"]
@@ -567,7 +567,7 @@ def effect_calls(ev, env, depth=0, max_depth=4):
         args = [ev.operand(env, a, (bi, None)) for a in t["args"]]
         if key and key in ev.facts.bodies and key not in ev.opaque and depth < max_depth:
             cb = ev.facts.bodies[key]
-            sub = ev.inline_env(cb, {i + 1: x for i, x in enumerate(args)}, depth + 1)
+            sub = ev.inline_env(cb, {i + 1: x for i, x in enumerate(args)}, depth + 1, env.path + ((body.key, bi),))
             for r in effect_calls(ev, sub, depth + 1, max_depth):
                 yield r
         else:
@@ -680,7 +680,7 @@ def inlined_envs(ev, root_env, max_depth=4):
             if key and key in ev.facts.bodies and key not in ev.opaque and (key, body.key, bi) not in seen:
                 seen.add((key, body.key, bi))
                 args = [ev.operand(env, a, (bi, None)) for a in t["args"]]
-                cenv = ev.inline_env(ev.facts.bodies[key], {i + 1: x for i, x in enumerate(args)}, env.depth + 1)
+                cenv = ev.inline_env(ev.facts.bodies[key], {i + 1: x for i, x in enumerate(args)}, env.depth + 1, env.path + ((body.key, bi),))
                 out.append((cenv.body, cenv))
                 rec(cenv, depth + 1)
     rec(root_env, 0)
